@@ -215,10 +215,10 @@ static void serialize_stats(const WorkerStats& w, int fd) {
            (unsigned long long)w.skipped, (unsigned long long)w.budget, (unsigned long long)w.infra, (unsigned long long)w.viol,
            (unsigned long long)w.known, (unsigned long long)w.steps, (unsigned long long)w.switches, w.vtime_s, (unsigned long long)w.nontrivial);
   o += b;
-  for (auto& kv : w.probes) { snprintf(b, sizeof b, "probe %llu %s\n", (unsigned long long)kv.second, kv.first.c_str()); o += b; }
-  for (auto& kv : w.faults) { snprintf(b, sizeof b, "fault %llu %s\n", (unsigned long long)kv.second, kv.first.c_str()); o += b; }
-  for (auto& kv : w.policies) { snprintf(b, sizeof b, "policy %llu %s\n", (unsigned long long)kv.second, kv.first.c_str()); o += b; }
-  for (auto& kv : w.known_hits) { snprintf(b, sizeof b, "knownhit %llu %s\n", (unsigned long long)kv.second, kv.first.c_str()); o += b; }
+  for (auto& kv : w.probes) { snprintf(b, sizeof b, "probe %llu ", (unsigned long long)kv.second); o += b; o += kv.first; o += "\n"; }
+  for (auto& kv : w.faults) { snprintf(b, sizeof b, "fault %llu ", (unsigned long long)kv.second); o += b; o += kv.first; o += "\n"; }
+  for (auto& kv : w.policies) { snprintf(b, sizeof b, "policy %llu ", (unsigned long long)kv.second); o += b; o += kv.first; o += "\n"; }
+  for (auto& kv : w.known_hits) { snprintf(b, sizeof b, "knownhit %llu ", (unsigned long long)kv.second); o += b; o += kv.first; o += "\n"; }
   for (auto& s : w.samples) { o += "sample "; o += s; o += "\n"; }
   for (size_t i = 0; i < w.viol_index.size(); i++) { snprintf(b, sizeof b, "viol %llu %llu ", (unsigned long long)w.viol_index[i], (unsigned long long)w.viol_start[i]); o += b; o += w.viol_what[i]; o += "\n"; }
   if (!w.infra_msg.empty()) { o += "inframsg "; o += w.infra_msg; o += "\n"; }
